@@ -25,7 +25,7 @@ from ..selftest import Variant
 
 LEVEL = "other"
 META = {
-    "technique": "static analysis: loop-shape extraction and sibling cross-check of rule_list.check_rules / rule_list.fix, def-use of the gating flag, selector-function shape, static rule table range check, argument forwarding",
+    "technique": "static analysis: loop-shape extraction and sibling cross-check of rule_list.check_rules / rule_list.fix, def-use of the gating flag, selector-function shape, static rule table range check, argument forwarding, verbatim-forwarding (identity through copies/defaults/helpers) of the configured skip list",
     "level_text": "Decides by code shape, for all inputs and configurations, that the phase/sub-phase loops of check and fix agree, that the skip test "
     "precedes any rule activity, that --fix_phase bounds the loop inclusively, that the gating break is per phase and depends only on error-type "
     "violation counts, and that every live rule falls inside the loop ranges. Combined with C06 this yields the prefix property by construction.",
